@@ -19,7 +19,7 @@ import (
 func init() {
 	core.Register(&core.Simple{
 		Id: "C10", Lvl: "exploration", Quick: 450, Thorough: 15000, PerBatch: 150, Width: 150, Timeout: 2400,
-		RuleText: "each case generates a directory tree (depth <= 4, fan-out <= 6, empty folders, hidden files and folders, file sizes 0..40 KiB, ASCII names of 1..60 bytes incl. spaces) and runs one of: folder download with a per-item action script (send / resume at an offset / skip), folder upload into a target that is empty or already holds complete files and .incomplete partials, upload followed by download of the same tree, or an upload whose connection is cut inside one file's data and which is then retried (the cut file must not appear under its final name; the retry must resume it). The reference folder-download client checks: item headers counted = announced item count; items = depth-first walk of names not starting with a dot, each once, with relative paths; for every file the size prefix and the bytes for the chosen action (flattened header consistent, exactly the file's data from the offset); nothing after the last item. The reference folder-upload client checks the action the server chooses per item (send / skip complete / resume from the partial's size) and that the resulting tree equals the streamed tree. distinct = (mode, items class, actions used); non-trivial = tree has at least 3 items",
+		RuleText: "each case generates a directory tree (depth <= 4, fan-out <= 6, empty folders, hidden files and folders, file sizes 0..40 KiB, names of 1..60 bytes incl. spaces and, in a sixth of them, bytes above 0x7f) and runs one of: folder download with a per-item action script (send / resume at an offset / skip), folder upload into a target that is empty or already holds complete files and .incomplete partials, upload followed by download of the same tree, or an upload whose connection is cut inside one file's data and which is then retried (the cut file must not appear under its final name; the retry must resume it). The reference folder-download client checks: item headers counted = announced item count; items = depth-first walk of names not starting with a dot, each once, with relative paths; for every file the size prefix and the bytes for the chosen action (flattened header consistent, exactly the file's data from the offset); nothing after the last item. The reference folder-upload client checks the action the server chooses per item (send / skip complete / resume from the partial's size) and that the resulting tree equals the streamed tree. distinct = (mode, items class, actions used); non-trivial = tree has at least 3 items",
 		Case:     runCase,
 	})
 }
@@ -46,6 +46,15 @@ func genName(r *core.Rand, hidden bool) string {
 		b[0] = 'x'
 	}
 	s := strings.TrimRight(string(b), " ") + "e"
+	if r.Chance(1, 6) {
+		// bytes above 0x7f: item names travel as raw bytes in both directions of a folder transfer and must come back
+		// byte for byte
+		hb := make([]byte, 1+r.Intn(4))
+		for i := range hb {
+			hb[i] = byte(0x80 + r.Intn(0x7f))
+		}
+		s = s[:len(s)/2] + string(hb) + s[len(s)/2:]
+	}
 	if hidden {
 		s = "." + s
 	}
@@ -420,8 +429,8 @@ func runCase(c *core.Case) {
 					hiddenAbove = true
 				}
 			}
-			if hiddenAbove {
-				continue
+			if hiddenAbove || !isASCII(strings.Join(f.path, "")) {
+				continue // the file requests convert names between Mac-Roman and UTF-8 (C11's subject); raw high bytes on disk are not addressable through them
 			}
 			dir := append(append([]string{}, base...), f.path[:len(f.path)-1]...)
 			rep, ok := cl.Call(207, rc.FS(201, f.path[len(f.path)-1]), rc.F(202, rc.PathS(dir...)), rc.FS(210, "note "+fmt.Sprint(r.Intn(1000))))
@@ -551,4 +560,13 @@ func uploadCutRetry(c *core.Case, srv *fixture.Server, cl *refclient.Client, tre
 			return
 		}
 	}
+}
+
+func isASCII(s string) bool {
+	for i := 0; i < len(s); i++ {
+		if s[i] >= 0x80 {
+			return false
+		}
+	}
+	return true
 }
